@@ -5,7 +5,8 @@
     * `rails/llm/utils.py::get_history_cache_key`            -> `cacheKeyAsIs`
     * the proposed injective replacement (role- and length-prefixed)   -> `cacheKeyLP`
     * `rails/llm/llmrails.py::_get_events_for_messages` (Colang 1.0 branch: longest cached proper
-      prefix, the rest converted message by message)                   -> `lookupLongest`, `eventsFor`
+      prefix, the rest converted: new-turn index, loop, deferred new-turn event)
+                                                          -> `lookupLongest`, `eventsFor`, `convTailC`
     * the cache part of `LLMRails.generate_async` (options=None, state=None): events for the
       request, one turn of the runtime, `events_history_cache[key(messages + [reply])] = events + new`
                                                                         -> `serveStep`, `runT`
@@ -92,15 +93,12 @@ def lookupLongest (key : List Msg → K) (C : Cache K Ev) (msgs : List Msg) : Na
     | some ev => (p + 1, ev)
     | none => lookupLongest key C msgs p
 
-/-- `for idx in range(p, len(messages))`: `conv isLast msg`; the flag is `idx == len(messages) - 1` -/
-def convertTail (conv : Bool → Msg → List Ev) : List Msg → List Ev
-  | [] => []
-  | [m] => conv true m
-  | m :: m' :: r => conv false m ++ convertTail conv (m' :: r)
-
-def eventsFor (key : List Msg → K) (conv : Bool → Msg → List Ev) (C : Cache K Ev) (msgs : List Msg) : List Ev :=
+/-- `_get_events_for_messages` after the lookup: `cached events ++ conv (messages[p:])`.  `conv` is the
+    conversion of the WHOLE remaining tail (it is not message-local: which user message starts the new turn
+    depends on the messages after it); the concrete conversion of the current source is `convTailC` below. -/
+def eventsFor (key : List Msg → K) (conv : List Msg → List Ev) (C : Cache K Ev) (msgs : List Msg) : List Ev :=
   let r := lookupLongest key C msgs (msgs.length - 1)
-  r.2 ++ convertTail conv (msgs.drop r.1)
+  r.2 ++ conv (msgs.drop r.1)
 
 /-- what one `generate_async` call did -/
 structure Step (Ev : Type) where
@@ -114,7 +112,7 @@ def Step.hist (s : Step Ev) : List Msg := s.req ++ [s.reply]
 /-- `events.extend(new_events)` — the value written to the cache -/
 def Step.stored (s : Step Ev) : List Ev := s.events ++ s.new
 
-def serveStep (key : List Msg → K) (conv : Bool → Msg → List Ev) (turn : List Ev → Msg × List Ev)
+def serveStep (key : List Msg → K) (conv : List Msg → List Ev) (turn : List Ev → Msg × List Ev)
     (C : Cache K Ev) (msgs : List Msg) : Step Ev :=
   let ev := eventsFor key conv C msgs
   let r := turn ev
@@ -123,7 +121,7 @@ def serveStep (key : List Msg → K) (conv : Bool → Msg → List Ev) (turn : L
 def entry (key : List Msg → K) (s : Step Ev) : K × List Ev := (key s.hist, s.stored)
 
 /-- sequential service of a schedule of `(conversation id, request)` on one instance starting with cache `C` -/
-def runT (key : List Msg → K) (conv : Bool → Msg → List Ev) (turn : List Ev → Msg × List Ev) :
+def runT (key : List Msg → K) (conv : List Msg → List Ev) (turn : List Ev → Msg × List Ev) :
     Cache K Ev → List (Nat × List Msg) → List (Nat × Step Ev)
   | _, [] => []
   | C, (c, r) :: s =>
@@ -151,13 +149,65 @@ inductive CEv where
   | opaque (n : Nat)            -- an event produced by the runtime (cache contents / new events)
   deriving DecidableEq, Repr
 
-def convC (isLast : Bool) (m : Msg) : List CEv :=
+/-! The conversion of the messages after the cached prefix (Colang 1.0 branch, current source):
+
+  ```
+  new_turn_idx = None
+  for idx in range(len(messages) - 1, p - 1, -1):
+      if role == "assistant": break
+      if role == "user": new_turn_idx = idx; break
+  for idx in range(p, len(messages)):
+      user:      idx == new_turn_idx -> new_turn_event = UF(content); continue
+                 else                -> UF(content), UM(content)
+      assistant: SB, BF     context: CU     event: the event     other roles: nothing
+  if new_turn_event is not None: events.append(new_turn_event)
+  ```
+  All indices are relative to the tail `messages[p:]` here. -/
+
+section Convert
+variable {Ev : Type}
+
+/-- the backwards scan for `new_turn_idx`: `rev` = the messages from index `idx` downwards -/
+def newTurnFrom : List Msg → Nat → Option Nat
+  | [], _ => none
+  | m :: r, idx =>
+    if m.role = rAssistant then none
+    else if m.role = rUser then some idx
+    else newTurnFrom r (idx - 1)
+
+/-- `new_turn_idx` (relative to the tail): the last user message that is only followed by messages that are
+    neither user nor assistant messages -/
+def newTurnIdx (tail : List Msg) : Option Nat := newTurnFrom tail.reverse (tail.length - 1)
+
+/-- the forward loop from index `i`; `conv isNewTurn msg` = the events appended for `msg` in the loop -/
+def convertFrom (conv : Bool → Msg → List Ev) (nt : Option Nat) : Nat → List Msg → List Ev
+  | _, [] => []
+  | i, m :: r => conv (nt = some i) m ++ convertFrom conv nt (i + 1) r
+
+/-- the whole conversion: loop, then the deferred event of the new turn (`fin`) -/
+def convertTail (conv : Bool → Msg → List Ev) (fin : Msg → List Ev) (tail : List Msg) : List Ev :=
+  let nt := newTurnIdx tail
+  convertFrom conv nt 0 tail ++
+    (match nt with
+     | some i => (match tail[i]? with | some m => fin m | none => [])
+     | none => [])
+
+end Convert
+
+/-- events appended inside the loop for one message; `isNewTurn` = `idx == new_turn_idx` -/
+def convC (isNewTurn : Bool) (m : Msg) : List CEv :=
   if m.role = rUser then
-    if isLast then [.userFinished m.text] else [.userFinished m.text, .userMessage m.text]
+    if isNewTurn then [] else [.userFinished m.text, .userMessage m.text]
   else if m.role = rAssistant then [.startBot m.text, .botFinished m.text]
   else if m.role = rContext then [.contextUpdate m.text]
   else if m.role = rEvent then [.raw m.text]
   else []
+
+/-- `new_turn_event` -/
+def newTurnC (m : Msg) : List CEv := [.userFinished m.text]
+
+/-- the conversion of the current source -/
+def convTailC : List Msg → List CEv := convertTail convC newTurnC
 
 /-! ## Part 2: LLM parameters -/
 
